@@ -530,3 +530,7 @@ Proof.
                   13 13 ltac:(vm_compute; reflexivity) r r' Hr Hr') as H. cbv beta in H.
     apply orb_true_iff in H. destruct H as [H|H]; [apply N.eqb_eq in H; contradiction | apply N.eqb_eq, H].
 Qed.
+
+(* the two masks of the set operations *)
+Lemma masks_ok : BC_BLANK = 0 /\ BC_ALL = 2 ^ 52 - 1 /\ BC_OVERFLOW = 2 ^ 64 - 2 ^ 52.
+Proof. repeat split; vm_compute; reflexivity. Qed.
